@@ -167,6 +167,19 @@ theorem writeMeshData_data (w : W) (id : Nat) (m : PMesh) (hw : Inv w) (hm : Mes
       show (writeAttrs w [] m.written).2.length = m.written.length
       simpa using this⟩⟩, accIs_mono hidx e3⟩, h2.trans' e2⟩
 
+theorem dupFree_pairwise {α} (f : α → String) : ∀ l : List α, dupFree (l.map f) = true →
+    List.Pairwise (fun a b => f a ≠ f b) l
+  | [], _ => List.Pairwise.nil
+  | a :: l, h => by
+    simp only [List.map_cons, dupFree, Bool.and_eq_true, Bool.not_eq_true'] at h
+    rw [List.pairwise_cons]
+    refine ⟨?_, dupFree_pairwise f l h.2⟩
+    intro b hb hab
+    have : (l.map f).contains (f a) = true := by
+      simp only [List.contains_eq_mem, List.mem_map, decide_eq_true_eq]
+      exact ⟨b, hb, hab.symm⟩
+    rw [this] at h; cases h.1
+
 /-! ### the data invariant of `AddScene` -/
 
 /-- glTF mesh `gm` is the one written for heap mesh `id` with material index `mat`: one primitive whose attribute map
@@ -174,11 +187,12 @@ theorem writeMeshData_data (w : W) (id : Nat) (m : PMesh) (hw : Inv w) (hm : Mes
 def MeshFor (s : Scene) (w : W) (gm : GMesh) (id : Nat) (mat : Option Nat) : Prop :=
   ∃ m p idx, s.meshHeap[id]? = some m ∧ gm.prims = [p] ∧ p.material = mat ∧ p.indices = some idx
     ∧ p.mode = (if m.topo = 1 then some 0 else none) ∧ MeshData w m p.attrs idx
+    ∧ m.written ≠ [] ∧ KeysOK m      -- both follow from acceptance (fd26630: skipped / rejected otherwise)
 
 theorem meshFor_mono {s : Scene} {w w' : W} {gm : GMesh} {id : Nat} {mat : Option Nat} (h : MeshFor s w gm id mat)
     (e : Ext w w') : MeshFor s w' gm id mat := by
-  obtain ⟨m, p, idx, h1, h2, h3, h4, h5, h6⟩ := h
-  exact ⟨m, p, idx, h1, h2, h3, h4, h5, meshData_mono h6 e⟩
+  obtain ⟨m, p, idx, h1, h2, h3, h4, h5, h6, h7⟩ := h
+  exact ⟨m, p, idx, h1, h2, h3, h4, h5, meshData_mono h6 e, h7⟩
 
 structure DInv (s : Scene) (w : W) : Prop where
   inv : Inv w
@@ -216,14 +230,14 @@ theorem writeMeshData_keepA (w : W) (id : Nat) (m : PMesh) :
 /-- appending the mesh built from data that reads back mesh `id` -/
 theorem dinv_appendMesh (s : Scene) (w w1 : W) (name : String) (id : Nat) (m : PMesh) (mat : Option Nat)
     (attrs : List (String × Nat)) (idx : Nat) (hw : DInv s w) (hheap : s.meshHeap[id]? = some m)
-    (hi : Inv w1) (he : Ext w w1) (hd : MeshData w1 m attrs idx) (hme : w1.meshes = w.meshes)
+    (hne : m.written ≠ []) (hkeys : KeysOK m) (hi : Inv w1) (he : Ext w w1) (hd : MeshData w1 m attrs idx) (hme : w1.meshes = w.meshes)
     (hmi : w1.meshIdx = mapInsert w.meshIdx (id, mat) w.meshes.length)
     (hwr : ∀ e ∈ w1.written, ∃ m', s.meshHeap[e.1]? = some m' ∧ MeshData w1 m' e.2.1 e.2.2) :
     DInv s { w1 with meshes := w1.meshes ++ [mkMesh name attrs idx mat m] }
     ∧ ∃ gm, ({ w1 with meshes := w1.meshes ++ [mkMesh name attrs idx mat m] } : W).meshes[w.meshes.length]? = some gm
         ∧ MeshFor s { w1 with meshes := w1.meshes ++ [mkMesh name attrs idx mat m] } gm id mat := by
   have hnew : MeshFor s { w1 with meshes := w1.meshes ++ [mkMesh name attrs idx mat m] } (mkMesh name attrs idx mat m) id mat :=
-    ⟨m, _, idx, hheap, rfl, rfl, rfl, rfl, hd⟩
+    ⟨m, _, idx, hheap, rfl, rfl, rfl, rfl, hd, hne, hkeys⟩
   refine ⟨⟨inv_congr hi ⟨rfl, rfl, rfl, rfl⟩, hwr, ?_, ?_⟩, ⟨_, by simp [hme], hnew⟩⟩
   · intro gm hgm
     simp only [List.mem_append, List.mem_singleton] at hgm
@@ -245,7 +259,7 @@ theorem dinv_appendMesh (s : Scene) (w w1 : W) (name : String) (id : Nat) (m : P
       exact ⟨_, by simp [hme], hnew⟩
 
 theorem dinv_addMesh (s : Scene) (w : W) (name : String) (id : Nat) (m : PMesh) (mat : Option Nat) (hw : DInv s w)
-    (hheap : s.meshHeap[id]? = some m) (hm : MeshWF m) :
+    (hheap : s.meshHeap[id]? = some m) (hm : MeshWF m) (hne : m.written ≠ []) (hkeys : KeysOK m) :
     DInv s (addMesh w name id m mat).1 ∧ Ext w (addMesh w name id m mat).1
     ∧ ∀ mi, (addMesh w name id m mat).2 = some mi →
         ∃ gm, (addMesh w name id m mat).1.meshes[mi]? = some gm ∧ MeshFor s (addMesh w name id m mat).1 gm id mat := by
@@ -265,12 +279,12 @@ theorem dinv_addMesh (s : Scene) (w : W) (name : String) (id : Nat) (m : PMesh) 
         have hmm : m' = m := by rw [hheap] at h1; injection h1 with h1; exact h1.symm
         subst hmm
         obtain ⟨k1, k2⟩ := dinv_appendMesh s w { w with meshIdx := mapInsert w.meshIdx (id, mat) w.meshes.length } name id m' mat
-          attrs idx hw hheap hi0 (Ext.refl' w) h2 rfl rfl hw.written
+          attrs idx hw hheap hne hkeys hi0 (Ext.refl' w) h2 rfl rfl hw.written
         exact ⟨k1, Ext.refl' w, fun mi h => by injection h with h; subst h; exact k2⟩
       · obtain ⟨hd, he⟩ := writeMeshData_data { w with meshIdx := mapInsert w.meshIdx (id, mat) w.meshes.length } id m hi0 hm
         have he' : Ext w (writeMeshData { w with meshIdx := mapInsert w.meshIdx (id, mat) w.meshes.length } id m).1 := he
         have hi1 := inv_writeMeshData _ id m hi0 hm
-        obtain ⟨k1, k2⟩ := dinv_appendMesh s w _ name id m mat _ _ hw hheap hi1 he' hd
+        obtain ⟨k1, k2⟩ := dinv_appendMesh s w _ name id m mat _ _ hw hheap hne hkeys hi1 he' hd
           (writeMeshData_keepA _ id m).2.1 (writeMeshData_keepA _ id m).2.2.2.1 (by
           intro e hee
           rw [(writeMeshData_keepA _ id m).2.2.1] at hee
@@ -350,10 +364,12 @@ theorem dinv_addModel (s : Scene) (w w' : W) (md : Model) (hs : SceneOK s) (hmd 
       · split at h
         · cases h
         · rename_i r hr
+          have hgate := gate_ok s w md _ r hr
+          have hr := hgate.2
           have hl := lowEq_addModelMaterial s w md r hr
           have hk := addModelMaterial_keepW s w md r hr
           have h1 : DInv s r.1 := dinv_keep hw (inv_congr hw.inv hl) (ext_of_lowEq hl) hk.2.1 hk.1 hk.2.2.1
-          obtain ⟨h2, e2, _⟩ := dinv_addMesh s r.1 md.name id m r.2 h1 hm hwf
+          obtain ⟨h2, e2, _⟩ := dinv_addMesh s r.1 md.name id m r.2 h1 hm hwf (skipped_false ‹_›).2 (dupFree_pairwise _ _ hgate.1)
           have e12 : Ext w (addMesh r.1 md.name id m r.2).1 := (ext_of_lowEq hl).trans' e2
           simp only at h
           split at h
@@ -414,14 +430,16 @@ theorem written_dim {m : PMesh} {a : Attr} (h : a ∈ m.written) : 2 ≤ a.dim :
 /-- PER-PRIMITIVE CONSISTENCY.  For every well-formed scene the writer accepts, every glTF mesh is the mesh written for
     some heap mesh `m` of the scene: it has one primitive; ALL its attribute accessors exist, are vectors, and have
     count = `m`'s vertex count; its index accessor exists, is a SCALAR with count = `m`'s index count, and decoding it
-    from the buffer returns exactly `m`'s indices — each of which is < the vertex count -/
+    from the buffer returns exactly `m`'s indices — each of which is < the vertex count.
+    (The last inequality and `count = attrLen` restate the `MeshWF` hypothesis; the CONTENT is accessor existence, dimension /
+    component type / count of what was written, and `decodeAcc … = some m.indices`, i.e. nothing is truncated or misplaced.) -/
 theorem gltf_prims_consistent (s : Scene) (w : W) (hs : SceneOK s) (h : writeScene s = .ok w) :
     ∀ gm ∈ w.meshes, ∃ (id : Nat) (m : PMesh) (p : Prim) (idx : Nat), s.meshHeap[id]? = some m ∧ gm.prims = [p] ∧ p.indices = some idx
       ∧ (∀ ka ∈ p.attrs, ∃ x, w.accessors[ka.2]? = some x ∧ x.count = m.attrLen ∧ 2 ≤ x.dim)
       ∧ ∃ ia, w.accessors[idx]? = some ia ∧ ia.dim = 1 ∧ (ia.comp = .u16 ∨ ia.comp = .u32) ∧ ia.count = m.indices.length
           ∧ decodeAcc w.buf w.views ia = some m.indices ∧ ∀ v ∈ m.indices, v < m.attrLen := by
   intro gm hgm
-  obtain ⟨id, mat, m, p, idx, h1, h2, _, h4, _, hd⟩ := (scene_dinv s w hs h).meshes gm hgm
+  obtain ⟨id, mat, m, p, idx, h1, h2, _, h4, _, hd, _, _⟩ := (scene_dinv s w hs h).meshes gm hgm
   have hwf : MeshWF m := hs.1 m (List.mem_of_getElem? h1)
   refine ⟨id, m, p, idx, h1, h2, h4, ?_, ?_⟩
   · intro ka hka
@@ -431,17 +449,15 @@ theorem gltf_prims_consistent (s : Scene) (w : W) (hs : SceneOK s) (h : writeSce
     refine ⟨ia, hx, hdim, ?_, hcount, hdec, hwf.2.1⟩
     rw [hcomp]; unfold indexComp; split <;> simp
 
-/-- a mesh that has indices has at least one vertex attribute that is written (Float2/3/4) -/
-def SceneOK2 (s : Scene) : Prop := SceneOK s ∧ ∀ m ∈ s.meshHeap, m.written ≠ [] ∨ m.indices = []
 
 /-- the same as a Bool on the document: the `primOK` conjunct of `valid` -/
-theorem scene_prims_ok (s : Scene) (w : W) (hs : SceneOK2 s) (h : writeScene s = .ok w) :
+theorem scene_prims_ok (s : Scene) (w : W) (hs : SceneOK s) (h : writeScene s = .ok w) :
     w.meshes.all (fun m => m.prims.all (primOK w.buf w.views w.accessors w.materials.length)) = true := by
   simp only [List.all_eq_true]
   intro gm hgm p hp
   have hrefs := (gltf_refs_in_range_partial s w h).meshes gm hgm p hp
-  obtain ⟨id, mat, m, p', idx, h1, h2, _, h4, _, hd⟩ := (scene_dinv s w hs.1 h).meshes gm hgm
-  have hwf : MeshWF m := hs.1.1 m (List.mem_of_getElem? h1)
+  obtain ⟨id, mat, m, p', idx, h1, h2, _, h4, _, hd, hne', _⟩ := (scene_dinv s w hs h).meshes gm hgm
+  have hwf : MeshWF m := hs.1 m (List.mem_of_getElem? h1)
   rw [h2] at hp; simp only [List.mem_singleton] at hp; subst hp
   have hcount : ∀ ka ∈ p.attrs, ∃ x, w.accessors[ka.2]? = some x ∧ x.count = m.attrLen ∧ 2 ≤ x.dim := by
     intro ka hka
@@ -469,9 +485,7 @@ theorem scene_prims_ok (s : Scene) (w : W) (hs : SceneOK2 s) (h : writeScene s =
       unfold vertexCount
       cases hpa : p.attrs with
       | nil =>
-        rcases hs.2 m (List.mem_of_getElem? h1) with hne | hnil
-        · exact absurd hpa (hd.2.1.1 hne)
-        · rw [hnil] at hv; cases hv
+        exact absurd hpa (hd.2.1.1 hne')
       | cons q r =>
         obtain ⟨y, hy, hyc, _⟩ := hcount q (by rw [hpa]; simp)
         simp only [hy, hyc]
